@@ -336,3 +336,50 @@ func VerifHarness_C15_synth() {
 	}
 	verifObserve("reason", reason)
 }
+
+func init() { verifRegister("C15_types", VerifHarness_C15_types) }
+
+// C15_types: every declared type name that stands for a number, a boolean or a timestamp is checked as such: a
+// malformed value is refused with "incorrect data format" naming the tag, a well-formed one passes. (The synthetic
+// dictionary of C15_synth uses one type name per family; the shipped dictionaries use all of them.)
+func VerifHarness_C15_types() {
+	ints := []string{"INT", "LENGTH", "SEQNUM", "DAYOFMONTH", "NUMINGROUP"}
+	floats := []string{"FLOAT", "QTY", "QUANTITY", "AMT", "PRICE", "PRICEOFFSET", "PERCENTAGE"}
+	times := []string{"UTCTIMESTAMP", "TIME"}
+	fam := verifConc(ndInt("family", 0, 3))
+	var typ string
+	var good, bad []byte
+	switch fam {
+	case 0:
+		verifCase("integer-types")
+		typ = ints[verifConc(ndInt("int-type", 0, len(ints)-1))]
+		// two symbolic bytes: well-formed exactly when digit digit or '-' digit
+		v := ndBytes("v", 2)
+		isD := func(c byte) bool { return verifAnd(c >= '0', c <= '9') }
+		wf := verifOr(verifAnd(isD(v[0]), isD(v[1])), verifAnd(v[0] == '-', isD(v[1])))
+		d := &datadictionary.DataDictionary{FieldTypeByTag: map[int]*datadictionary.FieldType{900: datadictionary.NewFieldType("X", 900, typ)}}
+		rej := validateField(d, ValidatorSettings{}, nil, TagValue{tag: 900, value: v})
+		if wf {
+			verifAssert(rej == nil, "typed-value-well-formed-accepted")
+		} else {
+			verifAssert(rej != nil && rej.RejectReason() == 6 && rej.RefTagID() != nil && *rej.RefTagID() == 900, "typed-value-malformed-refused-naming-the-tag")
+		}
+		return
+	case 1:
+		verifCase("float-types")
+		typ = floats[verifConc(ndInt("float-type", 0, len(floats)-1))]
+		good, bad = []byte("12.5"), []byte("1e2")
+	case 2:
+		verifCase("timestamp-types")
+		typ = times[verifConc(ndInt("time-type", 0, len(times)-1))]
+		good, bad = []byte("20240110-12:00:00"), []byte("20240110-12:00")
+	case 3:
+		verifCase("boolean")
+		typ = "BOOLEAN"
+		good, bad = []byte("Y"), []byte("y")
+	}
+	d := &datadictionary.DataDictionary{FieldTypeByTag: map[int]*datadictionary.FieldType{900: datadictionary.NewFieldType("X", 900, typ)}}
+	verifAssert(validateField(d, ValidatorSettings{}, nil, TagValue{tag: 900, value: good}) == nil, "typed-value-well-formed-accepted")
+	rej := validateField(d, ValidatorSettings{}, nil, TagValue{tag: 900, value: bad})
+	verifAssert(rej != nil && rej.RejectReason() == 6 && rej.RefTagID() != nil && *rej.RefTagID() == 900, "typed-value-malformed-refused-naming-the-tag")
+}
